@@ -3,6 +3,10 @@ import Mieru.Model.Padding
 import Mieru.Proofs.Pattern
 import Mieru.Proofs.Base64
 import Mieru.Gen.Arith
+import Mieru.Gen.PatternGen
+import Mieru.Model.FixedInt
+import Mieru.Model.PatternWire
+import Mieru.Proofs.PatternWire
 /-!
 # C16 — traffic-pattern settings are honoured; implicit ones are stable and valid
 
@@ -257,5 +261,827 @@ example : lowEntropySendConfig (some { lowEntropy := some { mode := some 3, mask
 example : lowEntropySendConfig (some { lowEntropy := some { mode := some 3, maskRotation := some 32 } }) false false = (0, 0, false) := by decide
 example : nonceRewriteLen 6 9 24 7 = 9 := by decide
 example : rewriteFlags true false 4 false = [true, false, false, false] := by decide
+
+end Mieru.C16
+
+/-! # Round 3 -/
+
+/-! ## `rng.FixedInt` instantiated: the theorems above for the REAL function
+
+`Mieru.FixedInt.fixedIntSha n hint = BE32(SHA-256(hint) with the top bit cleared) % n` (0 for n = 0) is the
+code's `rng.FixedInt` (driver ops `pat-fixedint`, `pat-eff-sha`; compared with the real function and with
+`Effective()` on every configuration case).  Nothing below assumes anything about SHA-256. -/
+namespace Mieru.C16
+open Mieru.Pattern Mieru.Padding Mieru.FixedInt
+
+theorem fixedIntSha_ok : FixedIntOK fixedIntSha := fun n h hn => fixedIntSha_lt n h hn
+
+/-- the explicit-field clause as a predicate on (input, effective) -/
+def ExplicitKept (p e : TrafficPattern) : Prop :=
+    Keeps p.seed e.seed ∧ Keeps p.unlockAll e.unlockAll ∧
+    Keeps (p.tcpFragment.bind (·.enable)) (e.tcpFragment.bind (·.enable)) ∧
+    Keeps (p.tcpFragment.bind (·.maxSleepMs)) (e.tcpFragment.bind (·.maxSleepMs)) ∧
+    Keeps (p.nonce.bind (·.type)) (e.nonce.bind (·.type)) ∧
+    Keeps (p.nonce.bind (·.applyToAll)) (e.nonce.bind (·.applyToAll)) ∧
+    Keeps (p.nonce.bind (·.minLen)) (e.nonce.bind (·.minLen)) ∧
+    Keeps (p.nonce.bind (·.maxLen)) (e.nonce.bind (·.maxLen)) ∧
+    (e.nonce.map (·.customHex)).getD [] = (p.nonce.map (·.customHex)).getD [] ∧
+    Keeps (p.padding.bind (·.maxMiddle)) (e.padding.bind (·.maxMiddle)) ∧
+    Keeps (p.padding.bind (·.maxEnd)) (e.padding.bind (·.maxEnd)) ∧
+    Keeps (p.lowEntropy.bind (·.mode)) (e.lowEntropy.bind (·.mode)) ∧
+    Keeps (p.lowEntropy.bind (·.maskRotation)) (e.lowEntropy.bind (·.maskRotation))
+
+/-- `Effective()` of the real generator keeps every explicit field -/
+theorem explicit_preserved_sha (host : Int) (p : TrafficPattern) : ExplicitKept p (effective fixedIntSha host p) :=
+  explicit_preserved fixedIntSha host p
+
+/-- `Validate(Effective())` succeeds for the real generator, for every pattern `Validate` accepts -/
+theorem effective_sha_valid (host : Int) (p : TrafficPattern) (hv : validate p = .ok ()) :
+    validate (effective fixedIntSha host p) = .ok () :=
+  effective_valid_full fixedIntSha fixedIntSha_ok host p hv
+
+/-- `NewConfig` with the real generator succeeds on every valid pattern; its result is `effective …` and validates -/
+theorem newConfig_sha_ok (host : Int) (p : TrafficPattern) (hv : validate p = .ok ()) :
+    newConfig fixedIntSha host p = .ok (effective fixedIntSha host p) ∧
+    validate (effective fixedIntSha host p) = .ok () := by
+  refine ⟨?_, effective_sha_valid host p hv⟩
+  unfold newConfig; rw [hv]
+
+/-- The effective pattern is a function of (pattern, seed-or-host) alone — `unlockAll` is a field of the
+    pattern —: the host-derived seed matters only through `seedOf`, i.e. only when the pattern has no
+    explicit seed.  (For every `fi`, in particular the real one.) -/
+theorem effective_function_of_seedOf (fi : Nat → String → Nat) (host host' : Int) (p : TrafficPattern)
+    (h : seedOf p host = seedOf p host') : effective fi host p = effective fi host' p := by
+  unfold effective; simp only [h]
+
+theorem effective_sha_deterministic (host host' : Int) (p : TrafficPattern) (hs : p.seed = none → host = host') :
+    effective fixedIntSha host p = effective fixedIntSha host' p :=
+  effective_deterministic fixedIntSha fixedIntSha host host' p hs (fun _ _ _ => rfl)
+
+/-! ### what the implicit values depend on (audit WEAK-1)
+
+Not "seed and unlockAll" alone: because of the clamp, the implicit `nonce.minLen` also depends on an
+explicit `nonce.maxLen`, and the implicit `nonce.maxLen` on an explicit `nonce.minLen`.  Exactly that: -/
+
+def fEnable (p : TrafficPattern) := p.tcpFragment.bind (·.enable)
+def fSleep (p : TrafficPattern) := p.tcpFragment.bind (·.maxSleepMs)
+def fType (p : TrafficPattern) := p.nonce.bind (·.type)
+def fApplyAll (p : TrafficPattern) := p.nonce.bind (·.applyToAll)
+def fMinLen (p : TrafficPattern) := p.nonce.bind (·.minLen)
+def fMaxLen (p : TrafficPattern) := p.nonce.bind (·.maxLen)
+def fMid (p : TrafficPattern) := p.padding.bind (·.maxMiddle)
+def fEnd (p : TrafficPattern) := p.padding.bind (·.maxEnd)
+def fMode (p : TrafficPattern) := p.lowEntropy.bind (·.mode)
+def fRot (p : TrafficPattern) := p.lowEntropy.bind (·.maskRotation)
+
+/-- Two patterns with the same seed-or-host and the same `unlockAll` get the SAME implicit value in every
+    field both leave unset — for `nonce.minLen` provided they agree on the explicit `nonce.maxLen` (set or
+    not), for `nonce.maxLen` provided they agree on the explicit `nonce.minLen`.  Whatever else they set. -/
+theorem implicit_values_depend_only_on (fi : Nat → String → Nat) (host host' : Int) (p q : TrafficPattern)
+    (hseed : seedOf p host = seedOf q host') (hua : p.unlockAll.getD false = q.unlockAll.getD false) :
+    let e := effective fi host p
+    let e' := effective fi host' q
+    (fEnable p = none → fEnable q = none → fEnable e = fEnable e') ∧
+    (fSleep p = none → fSleep q = none → fSleep e = fSleep e') ∧
+    (fType p = none → fType q = none → fType e = fType e') ∧
+    (fApplyAll p = none → fApplyAll q = none → fApplyAll e = fApplyAll e') ∧
+    (fMinLen p = none → fMinLen q = none → fMaxLen p = fMaxLen q → fMinLen e = fMinLen e') ∧
+    (fMaxLen p = none → fMaxLen q = none → fMinLen p = fMinLen q → fMaxLen e = fMaxLen e') ∧
+    (fMid p = none → fMid q = none → fMid e = fMid e') ∧
+    (fEnd p = none → fEnd q = none → fEnd e = fEnd e') ∧
+    (fMode p = none → fMode q = none → fMode e = fMode e') ∧
+    (fRot p = none → fRot q = none → fRot e = fRot e') := by
+  simp only [fEnable, fSleep, fType, fApplyAll, fMinLen, fMaxLen, fMid, fEnd, fMode, fRot, effective,
+    genTcpFragment, genNonce, genPadding, genLowEntropy, Option.bind_some, hseed, hua]
+  refine ⟨?_, ?_, ?_, ?_, ?_, ?_, ?_, ?_, ?_, ?_⟩
+  · intro h1 h2; cases hp : p.tcpFragment <;> cases hq : q.tcpFragment <;> simp_all [orElse]
+  · intro h1 h2; cases hp : p.tcpFragment <;> cases hq : q.tcpFragment <;> simp_all [orElse]
+  · intro h1 h2; cases hp : p.nonce <;> cases hq : q.nonce <;> simp_all [orElse]
+  · intro h1 h2; cases hp : p.nonce <;> cases hq : q.nonce <;> simp_all [orElse]
+  · intro h1 h2 h3; cases hp : p.nonce <;> cases hq : q.nonce <;> simp_all [orElse]
+  · intro h1 h2 h3; cases hp : p.nonce <;> cases hq : q.nonce <;> simp_all [orElse]
+  · intro h1 h2; cases hp : p.padding <;> cases hq : q.padding <;> simp_all [orElse]
+  · intro h1 h2; cases hp : p.padding <;> cases hq : q.padding <;> simp_all [orElse]
+  · intro h1 h2; cases hp : p.lowEntropy <;> cases hq : q.lowEntropy <;> simp_all [orElse]
+  · intro h1 h2; cases hp : p.lowEntropy <;> cases hq : q.lowEntropy <;> simp_all [orElse]
+
+/-- … and the extra dependence is real: same seed, same unlockAll, `minLen` unset in both — the implicit
+    `minLen` differs because one pattern sets `maxLen = 3` explicitly (so "implicit values are a function of
+    seed and unlockAll" is FALSE for this code; the clamp is the repair of the defect found in round 1). -/
+theorem implicit_minLen_depends_on_explicit_maxLen :
+    ∃ fi, FixedIntOK fi ∧ ∃ p q : TrafficPattern, seedOf p 0 = seedOf q 0 ∧ p.unlockAll = q.unlockAll ∧
+      fMinLen p = none ∧ fMinLen q = none ∧ fMinLen (effective fi 0 p) ≠ fMinLen (effective fi 0 q) :=
+  ⟨fiConst 5, fiConst_ok 5, { seed := some 0, nonce := some { maxLen := some 3 } }, { seed := some 0 }, by decide⟩
+
+end Mieru.C16
+
+/-! ## Tie T: the hand-written model equals the definitions REGENERATED from the Go source
+
+`Mieru.Gen.PatternGen` is produced by tools/goextract/pattern.go from the repository's current working
+tree on every run.  A change of the Go function changes the generated definition and the equality below
+stops proving (or the `decide`d expectation becomes false); `mieru-gen` evaluates the same definitions
+against the real functions (harness/props/c16_gen.go). -/
+namespace Mieru.C16
+open Mieru.Pattern Mieru.Padding Mieru.PatternWire
+
+/-- `nonceRewriteLen` (pkg/cipher/cipher.go), every input — both clamp branches included —, every draw -/
+theorem nonceRewriteLen_eq_gen (minLen maxLen size : Int) (r : Nat) :
+    nonceRewriteLen minLen maxLen size r = Mieru.Gen.PatternGen.nonceRewriteLen minLen maxLen size r := by
+  unfold nonceRewriteLen nonceRewriteRange Mieru.Gen.PatternGen.nonceRewriteLen
+  simp only
+  repeat' split
+  all_goals first | rfl | omega | simp_all
+
+/-- FULL range statement (no validity hypothesis): whatever `minLen`, `maxLen`, nonce size — `maxLen` above the
+    nonce size is clamped to it, `minLen` above that to it — the length lies in the clamped range and every
+    length of the clamped range occurs for some draw.  Stated for the regenerated function. -/
+theorem nonce_rewrite_len_in_clamped_range (minLen maxLen size : Int) (r : Nat) :
+    let lo := (nonceRewriteRange minLen maxLen size).1
+    let hi := (nonceRewriteRange minLen maxLen size).2
+    hi = min maxLen size ∧ lo = min minLen hi ∧
+    lo ≤ Mieru.Gen.PatternGen.nonceRewriteLen minLen maxLen size r ∧
+    Mieru.Gen.PatternGen.nonceRewriteLen minLen maxLen size r ≤ hi ∧
+    (∀ l, lo ≤ l → l ≤ hi → ∃ r' : Nat, Mieru.Gen.PatternGen.nonceRewriteLen minLen maxLen size r' = l) := by
+  simp only [← nonceRewriteLen_eq_gen]
+  unfold nonceRewriteLen nonceRewriteRange
+  simp only
+  have hlo : (if minLen > (if maxLen > size then size else maxLen) then (if maxLen > size then size else maxLen) else minLen)
+      ≤ (if maxLen > size then size else maxLen) := by split <;> omega
+  refine ⟨by split <;> omega, by split <;> omega, ?_⟩
+  generalize (if maxLen > size then size else maxLen) = hi at *
+  generalize hL : (if minLen > hi then hi else minLen) = lo at *
+  refine ⟨?_, ?_, ?_⟩
+  · split
+    · omega
+    · have := Int.emod_nonneg (r : Int) (b := hi - lo + 1) (by omega); omega
+  · split
+    · omega
+    · have := Int.emod_lt_of_pos (r : Int) (b := hi - lo + 1) (by omega); omega
+  · intro l h1 h2
+    refine ⟨(l - lo).toNat, ?_⟩
+    split
+    · omega
+    · rw [Int.toNat_of_nonneg (by omega), Int.emod_eq_of_lt (by omega) (by omega)]; omega
+
+/-- `maxPaddingSize` never returns a negative budget (regenerated function) -/
+theorem maxPaddingSize_nonneg (mtu transport frag existing : Int) :
+    0 ≤ Mieru.Gen.Arith.maxPaddingSize mtu transport frag existing := by
+  unfold Mieru.Gen.Arith.maxPaddingSize
+  split
+  · omega
+  · simp only; split <;> omega
+
+/-- the configured maximum `maxPaddingSizeWithTrafficPattern` looks at, by position: `none` for a nil pattern,
+    a nil `Padding` or an unknown position -/
+def configuredFor (tpNil padNil : Bool) (maxMiddle maxEnd : Option Int) (position : Int) : Option Int :=
+  if tpNil || padNil then none else if position = 0 then maxMiddle else if position = 1 then maxEnd else none
+
+/-- `maxPaddingSizeWithTrafficPattern` (pkg/protocol/padding.go) = `maxPadTP` over the regenerated
+    `maxPaddingSize`, for BOTH positions, nil pattern / nil padding / unset field included -/
+theorem maxPadTP_eq_gen (mtu transport frag existing : Int) (tpNil padNil : Bool) (maxMiddle maxEnd : Option Int) (position : Int) :
+    Mieru.Gen.PatternGen.maxPaddingSizeWithTrafficPattern mtu transport frag existing tpNil padNil maxMiddle maxEnd position =
+      maxPadTP (Mieru.Gen.Arith.maxPaddingSize mtu transport frag existing) (configuredFor tpNil padNil maxMiddle maxEnd position) := by
+  unfold Mieru.Gen.PatternGen.maxPaddingSizeWithTrafficPattern configuredFor maxPadTP
+  simp only [Mieru.Gen.PatternGen.middlePadding, Mieru.Gen.PatternGen.endPadding]
+  cases tpNil <;> cases padNil <;> simp
+  by_cases h0 : position = 0 <;> by_cases h1 : position = 1 <;> cases maxMiddle <;> cases maxEnd <;> simp_all
+
+/-- "0 means none", about the REGENERATED function: a configured maximum of 0 gives a budget of 0, at
+    either position, whatever the MTU arithmetic says; a configured `c ≥ 0` caps the budget -/
+theorem padding_zero_means_none_gen (mtu transport frag existing : Int) (other : Option Int) (c : Int) (hc : 0 ≤ c) :
+    Mieru.Gen.PatternGen.maxPaddingSizeWithTrafficPattern mtu transport frag existing false false (some c) other 0 ≤ c ∧
+    Mieru.Gen.PatternGen.maxPaddingSizeWithTrafficPattern mtu transport frag existing false false other (some c) 1 ≤ c ∧
+    Mieru.Gen.PatternGen.maxPaddingSizeWithTrafficPattern mtu transport frag existing false false (some 0) other 0 = 0 ∧
+    Mieru.Gen.PatternGen.maxPaddingSizeWithTrafficPattern mtu transport frag existing false false other (some 0) 1 = 0 := by
+  have hb := maxPaddingSize_nonneg mtu transport frag existing
+  simp only [maxPadTP_eq_gen, configuredFor, maxPadTP]
+  simp
+  omega
+
+/-- the arguments the regenerated low-entropy functions take, read off a model pattern -/
+def leNil (p : Option TrafficPattern) : Bool := (p.bind (·.lowEntropy)).isNone
+def leMode0 (p : Option TrafficPattern) : Int := ((p.bind (·.lowEntropy)).bind (·.mode)).getD 0
+def leRot0 (p : Option TrafficPattern) : Int := ((p.bind (·.lowEntropy)).bind (·.maskRotation)).getD 0
+
+/-- `extractLowEntropyConfig` (pkg/protocol/low_entropy.go) -/
+theorem extractLowEntropyConfig_eq_gen (p : Option TrafficPattern) :
+    extractLowEntropyConfig p = Mieru.Gen.PatternGen.extractLowEntropyConfig p.isNone (leNil p) (leMode0 p) (leRot0 p) := by
+  unfold extractLowEntropyConfig Mieru.Gen.PatternGen.extractLowEntropyConfig leNil leMode0 leRot0
+  cases p with
+  | none => simp
+  | some tp =>
+    cases h : tp.lowEntropy with
+    | none => simp [h]
+    | some l => simp [h]; split <;> simp_all
+
+/-- `Session.lowEntropySendConfig` (pkg/protocol/session.go) -/
+theorem lowEntropySendConfig_eq_gen (p : Option TrafficPattern) (isClient used : Bool) :
+    lowEntropySendConfig p isClient used =
+      Mieru.Gen.PatternGen.lowEntropySendConfig p.isNone (leNil p) (leMode0 p) (leRot0 p) isClient used := by
+  unfold lowEntropySendConfig Mieru.Gen.PatternGen.lowEntropySendConfig
+  rw [← extractLowEntropyConfig_eq_gen]
+  rcases extractLowEntropyConfig p with ⟨m, r, en⟩
+  cases en <;> cases isClient <;> cases used <;> simp
+
+/-- the protocol type `writeChunk` stamps on the data segments of a chunk, and the protocol numbers -/
+theorem dataProtocolOf_eq_gen (isClient le : Bool) :
+    dataProtocolOf isClient le = Mieru.Gen.PatternGen.dataProtocolOf isClient le := by
+  cases isClient <;> cases le <;> rfl
+
+/-- the flag `clientUseLowEntropy` is written at ONE place — `Session.input`, under
+    `!s.isClient && protocol == dataClientToServerLowEntropy` — and read at one place,
+    `lowEntropySendConfig`, whose snapshot `writeChunk` takes once, before its fragment loop -/
+theorem le_flag_sites :
+    Mieru.Gen.PatternGen.clientUseLowEntropyStores =
+      [("Session.input", "s.clientUseLowEntropy.Store(true)", "!s.isClient && protocol == dataClientToServerLowEntropy")] ∧
+    Mieru.Gen.PatternGen.clientUseLowEntropyLoads = [("Session.lowEntropySendConfig", "s.clientUseLowEntropy.Load()", "")] ∧
+    Mieru.Gen.PatternGen.lowEntropySnapshot =
+      [(1, "lowEntropyMode, lowEntropyRotation, sendLowEntropy := s.lowEntropySendConfig()")] := ⟨rfl, rfl, rfl⟩
+
+/-- which rewrite the calls of a `newNonceTo` switch case amount to -/
+def actionOfCalls (calls : List String) : NonceAction :=
+  if calls.contains "common.ToPrintableChar" then .printable
+  else if calls.contains "common.ToCommon64Set" then .subset
+  else if calls.contains "copy" then .fixed
+  else .none
+
+/-- `newNonceTo` (pkg/cipher/cipher.go) as a decision function: nil pattern ⇒ early return, flag untouched
+    (the audit's MODEL-MISMATCH, now in the model); the skip test; which types call `nonceRewriteLen` and which
+    class function; the flag set after the switch.  For the four `NonceType` values and every other number. -/
+theorem newNonceStep_eq_gen (pat : Option (Int × Bool)) (stateless applied : Bool) :
+    let g := Mieru.Gen.PatternGen.newNonceTo pat.isNone (!stateless) applied ((pat.map (·.2)).getD false) ((pat.map (·.1)).getD 0)
+    let m := newNonceStep pat stateless applied
+    g.2 = m.applied ∧ actionOfCalls g.1 = m.action ∧
+    (g.1.contains "c.nonceRewriteLen" = decide (m.action = .printable ∨ m.action = .subset)) ∧
+    (m.reached = false → g.1 = []) := by
+  unfold Mieru.Gen.PatternGen.newNonceTo newNonceStep nonceApplies
+  cases pat with
+  | none => simp [actionOfCalls]
+  | some v =>
+    obtain ⟨ty, all⟩ := v
+    cases stateless <;> cases applied <;> cases all <;> simp [actionOfType]
+    all_goals
+      by_cases h0 : ty = 0
+      · subst h0; decide
+      · by_cases h1 : ty = 1
+        · subst h1; decide
+        · by_cases h2 : ty = 2
+          · subst h2; decide
+          · by_cases h3 : ty = 3
+            · subst h3; decide
+            · simp [h0, h1, h2, h3, actionOfCalls]
+
+/-- what precedes the nil test in `newNonceTo`: the length check, the truncation to `NonceSize()`, `crand.Read` -/
+theorem newNonceTo_preamble :
+    Mieru.Gen.PatternGen.newNonceToPreamble =
+      ["if len(nonce) < c.NonceSize() { return errDestinationTooSmall }", "nonce = nonce[:c.NonceSize()]",
+       "if _, err := crand.Read(nonce); err != nil { return err }"] := rfl
+
+/-- the guard and the piece-length arithmetic of `writeWithPossibleFragment` (pkg/protocol/underlay_stream.go) -/
+theorem fragment_eq_gen (tpNil fragNil enable : Bool) (total remaining sq draw : Nat) :
+    Mieru.Gen.PatternGen.fragmentDisabled tpNil fragNil enable = (tpNil || fragNil || !enable) ∧
+    (fragLen total remaining sq draw : Int) = Mieru.Gen.PatternGen.fragmentLen total remaining sq draw := by
+  constructor
+  · cases tpNil <;> cases fragNil <;> cases enable <;> rfl
+  · unfold fragLen Mieru.Gen.PatternGen.fragmentLen
+    simp only
+    have hd : Int.tdiv (total : Int) 2 = ((total / 2 : Nat) : Int) := by
+      rw [Int.tdiv_eq_ediv_of_nonneg (by omega)]; omega
+    rw [hd]
+    have hm : ((max (sq + 1) (total / 2) : Nat) : Int) = max ((sq : Int) + 1) ((total / 2 : Nat) : Int) := by omega
+    rw [← hm]
+    have hhi : sq + 1 ≤ max (sq + 1) (total / 2) := Nat.le_max_left ..
+    generalize max (sq + 1) (total / 2) = hi at *
+    have hk : ((draw % (hi - (sq + 1) + 1) : Nat) : Int) = (draw : Int) % ((hi : Int) - ((sq : Int) + 1) + 1) := by
+      rw [Int.natCast_emod]; congr 1; omega
+    generalize ((draw : Int) % ((hi : Int) - ((sq : Int) + 1) + 1)) = m at *
+    generalize (draw % (hi - (sq + 1) + 1)) = mn at *
+    split <;> omega
+
+/-- … and the shape around that arithmetic: the loop runs while bytes remain, each iteration writes
+    `remaining[:lenToSend]`, sleeps only if `maxSleepMs > 0`, advances; the disabled branch is ONE `conn.Write` -/
+theorem fragment_loop_shape :
+    Mieru.Gen.PatternGen.fragmentLoopShape =
+      ["remaining := dataToSend", "len(remaining) > 0", "if _, err := t.conn.Write(remaining[:lenToSend]); err != nil",
+       "if t.trafficPattern.GetTcpFragment().GetMaxSleepMs() > 0", "remaining = remaining[lenToSend:]", "return nil"] ∧
+    Mieru.Gen.PatternGen.fragmentDisabledCalls = ["t.conn.Write", "fmt.Errorf"] := ⟨rfl, rfl⟩
+
+end Mieru.C16
+
+/-! ### `Validate` (apis/trafficpattern/config.go): order, bounds, error sites -/
+namespace Mieru.C16
+open Mieru.Pattern Mieru.Padding Mieru.PatternWire
+
+/-- the k-th error return of a translated validator ↔ the model's error (`none` = `nil`) -/
+def tcpErr : Except VErr Unit → Option Nat
+  | .ok _ => none
+  | .error .tcpSleepNegative => some 0
+  | .error .tcpSleepTooBig => some 1
+  | .error _ => some 99
+
+def padErr : Except VErr Unit → Option Nat
+  | .ok _ => none
+  | .error .padMiddleNegative => some 0
+  | .error .padMiddleTooBig => some 1
+  | .error .padEndNegative => some 2
+  | .error .padEndTooBig => some 3
+  | .error _ => some 99
+
+/-- `validateTCPFragment`: same checks, same order, same bounds (0..100), nil and unset handled alike -/
+theorem validateTcp_eq_gen (o : Option TcpFragment) :
+    Mieru.Gen.PatternGen.validateTCPFragment o.isNone (o.bind (·.maxSleepMs)) = tcpErr (validateTcpFragment o) := by
+  unfold Mieru.Gen.PatternGen.validateTCPFragment validateTcpFragment
+  cases o with
+  | none => rfl
+  | some f =>
+    cases h : f.maxSleepMs with
+    | none => simp [h, tcpErr]
+    | some v =>
+      simp [h]
+      split
+      · rfl
+      · split <;> rfl
+
+/-- `validatePaddingPattern`: same checks, same order, bounds 0..`maxPaddingLen` = 255 -/
+theorem validatePadding_eq_gen (o : Option PaddingPattern) :
+    Mieru.Gen.PatternGen.validatePaddingPattern o.isNone (o.bind (·.maxMiddle)) (o.bind (·.maxEnd)) = padErr (validatePadding o) ∧
+    Mieru.Gen.PatternGen.maxPaddingLen = maxPaddingLen := by
+  refine ⟨?_, rfl⟩
+  unfold Mieru.Gen.PatternGen.validatePaddingPattern validatePadding
+  cases o with
+  | none => rfl
+  | some f =>
+    cases h1 : f.maxMiddle <;> cases h2 : f.maxEnd <;>
+      simp [h1, h2, padErr, bind, Except.bind, throw, throwThe, MonadExceptOf.throw, pure, Except.pure,
+        Mieru.Gen.PatternGen.maxPaddingLen, maxPaddingLen]
+    all_goals (repeat' split)
+    all_goals first | rfl | omega | simp_all [padErr]
+
+/-- the error the k-th error return of `validateNoncePattern` stands for -/
+def nonceErrOfCode : Nat → VErr
+  | 0 => .nonceMinNegative
+  | 1 => .nonceMinTooBig
+  | 2 => .nonceMaxNegative
+  | 3 => .nonceMaxTooBig
+  | _ => .nonceMinGtMax
+
+/-- the integer part of `validateNoncePattern` (everything before the loop over the hex strings): the same five
+    checks in the same order with the bound 12 (error return k ↦ the model's k-th error); when they pass, what
+    remains is the hex-string loop -/
+theorem validateNonceInts_eq_gen (o : Option NoncePattern) :
+    (validateNonce o = match Mieru.Gen.PatternGen.validateNoncePatternInts o.isNone (o.bind (·.minLen)) (o.bind (·.maxLen)) with
+      | none => validateHexList ((o.map (·.customHex)).getD []) 0
+      | some k => .error (nonceErrOfCode k)) ∧
+    (∀ k, Mieru.Gen.PatternGen.validateNoncePatternInts o.isNone (o.bind (·.minLen)) (o.bind (·.maxLen)) = some k → k ≤ 4) := by
+  unfold Mieru.Gen.PatternGen.validateNoncePatternInts validateNonce
+  cases o with
+  | none => simp [validateHexList]
+  | some f =>
+    cases h1 : f.minLen with
+    | none =>
+      cases h2 : f.maxLen with
+      | none => simp [h1, h2, bind, Except.bind, pure, Except.pure]
+      | some b =>
+        by_cases c3 : b < 0 <;> by_cases c4 : 12 < b <;>
+          simp [h1, h2, c3, c4, bind, Except.bind, throw, throwThe, MonadExceptOf.throw, pure, Except.pure, maxNonceLen, nonceErrOfCode]
+    | some a =>
+      cases h2 : f.maxLen with
+      | none =>
+        by_cases c1 : a < 0 <;> by_cases c2 : 12 < a <;>
+          simp [h1, h2, c1, c2, bind, Except.bind, throw, throwThe, MonadExceptOf.throw, pure, Except.pure, maxNonceLen, nonceErrOfCode]
+      | some b =>
+        by_cases c1 : a < 0 <;> by_cases c2 : 12 < a <;> by_cases c3 : b < 0 <;> by_cases c4 : 12 < b <;> by_cases c5 : b < a <;>
+          simp [h1, h2, c1, c2, c3, c4, c5, bind, Except.bind, throw, throwThe, MonadExceptOf.throw, pure, Except.pure, maxNonceLen, nonceErrOfCode]
+
+/-- `Validate` calls the four validators in the model's order; the rest of `validateNoncePattern` is the hex
+    loop (decode error, then decoded length > 12); `validateLowEntropyPattern` tests membership in the two
+    generated name maps (whose key sets are compared with `validMode` / `validRotation` by the harness) -/
+theorem validate_shape :
+    Mieru.Gen.PatternGen.validateOrder =
+      [("if pattern == nil", "{ return nil }"), ("validateTCPFragment", "pattern.GetTcpFragment()"),
+       ("validateNoncePattern", "pattern.GetNonce()"), ("validatePaddingPattern", "pattern.GetPadding()"),
+       ("validateLowEntropyPattern", "pattern.GetLowEntropy()"), ("return nil", "")] ∧
+    Mieru.Gen.PatternGen.validateNonceTail =
+      ["for i, hexStr := range nonce.GetCustomHexStrings()", "decoded, err := hex.DecodeString(hexStr)", "if err != nil",
+       "if len(decoded) > 12", "return nil"] ∧
+    Mieru.Gen.PatternGen.validateLowEntropyShape =
+      ["if lowEntropy == nil", "  return nil", "if lowEntropy.Mode != nil",
+       "  if _, ok := appctlpb.LowEntropyMode_name[int32(lowEntropy.GetMode())]; !ok", "    return error",
+       "if lowEntropy.MaskRotation != nil",
+       "  if _, ok := appctlpb.LowEntropyMaskRotation_name[int32(lowEntropy.GetMaskRotation())]; !ok", "    return error",
+       "return nil"] := ⟨rfl, rfl, rfl⟩
+
+/-! ### the implicit generator (apis/trafficpattern/config.go `generate*`): every `rng.FixedInt` call site -/
+
+/-- the model's view of one call site: (function, hint name, range as the source writes it, only in the
+    `unlockAll` / `!unlockAll` branch?, guard field) -/
+def expectedSites : List (String × List String × String × String) :=
+  [("Config.generateTCPFragment", ["c.original.TcpFragment == nil || c.original.TcpFragment.Enable == nil", "unlockAll"], "2", "tcpFragment.enable"),
+   ("Config.generateTCPFragment", ["c.original.TcpFragment == nil || c.original.TcpFragment.MaxSleepMs == nil", "unlockAll"], "100", "tcpFragment.maxSleepMs"),
+   ("Config.generateNoncePattern", ["c.original.Nonce == nil || c.original.Nonce.Type == nil", "unlockAll"], "3", "nonce.type"),
+   ("Config.generateNoncePattern", ["c.original.Nonce == nil || c.original.Nonce.Type == nil", "!(unlockAll)"], "2", "nonce.type"),
+   ("Config.generateNoncePattern", ["c.original.Nonce == nil || c.original.Nonce.ApplyToAllUDPPacket == nil"], "2", "nonce.applyToAllUDPPacket"),
+   ("Config.generateNoncePattern", ["c.original.Nonce == nil || c.original.Nonce.MinLen == nil", "unlockAll"], "13", "nonce.minLen"),
+   ("Config.generateNoncePattern", ["c.original.Nonce == nil || c.original.Nonce.MinLen == nil", "!(unlockAll)"], "7", "nonce.minLen"),
+   ("Config.generateNoncePattern", ["c.original.Nonce == nil || c.original.Nonce.MaxLen == nil"], "13 - minLen", "nonce.maxLen"),
+   ("Config.generatePaddingPattern", ["c.original.Padding == nil || c.original.Padding.MaxMiddlePaddingLen == nil"], "maxPaddingLen + 1", "padding.maxMiddlePaddingLen"),
+   ("Config.generatePaddingPattern", ["c.original.Padding == nil || c.original.Padding.MaxEndPaddingLen == nil", "unlockAll"], "maxPaddingLen + 1", "padding.maxEndPaddingLen"),
+   ("Config.generateLowEntropyPattern", ["c.original.LowEntropy == nil || c.original.LowEntropy.Mode == nil", "unlockAll"], "len(appctlpb.LowEntropyMode_name)", "lowEntropy.mode"),
+   ("Config.generateLowEntropyPattern", ["c.original.LowEntropy == nil || c.original.LowEntropy.MaskRotation == nil"], "len(appctlpb.LowEntropyMaskRotation_name)", "lowEntropy.maskRotation")]
+
+/-- EVERY `rng.FixedInt` call of config.go: enclosing function, nil-guard (`original.X == nil || original.X.F == nil`:
+    only unset fields are generated), `unlockAll` branch, range expression and hint `"%d:<name>"` are the
+    model's (`gen*` in Model/Pattern.lean: ranges 2, 100, 3 / 2, 2, 13 / 7, 13 − minLen, 256, 256, |modes|, |rotations|);
+    the hint names, duplicates removed, are exactly `Pattern.hintNames` in the model's order; the only other use
+    of package rng is the host-derived seed `rng.FixedIntVH(math.MaxInt32)` taken iff `Seed == nil`. -/
+theorem fixedInt_call_sites :
+    Mieru.Gen.PatternGen.fixedIntSites.map (fun x => (x.1, x.2.1, x.2.2.1, x.2.2.2.1)) =
+      expectedSites.map (fun x => (x.1, x.2.1, x.2.2.1, "%d:" ++ x.2.2.2)) ∧
+    (expectedSites.map (·.2.2.2)).eraseDups = hintNames ∧
+    Mieru.Gen.PatternGen.otherRngCalls = [("Config.generateImplicitTrafficPattern", "rng.FixedIntVH(math.MaxInt32)")] ∧
+    Mieru.Gen.PatternGen.generateImplicitShape =
+      ["seed := int(c.original.GetSeed())", "if c.original.Seed == nil { seed = rng.FixedIntVH(math.MaxInt32) }",
+       "unlockAll := c.original.GetUnlockAll()", "c.generateTCPFragment(seed, unlockAll)", "c.generateNoncePattern(seed, unlockAll)",
+       "c.generatePaddingPattern(seed, unlockAll)", "c.generateLowEntropyPattern(seed, unlockAll)"] := ⟨rfl, by decide, rfl, rfl⟩
+
+/-- what surrounds the draws (post-processing, the clamp, the floor, the rotation mapping), statement by
+    statement: the `+ 1`, `+ 6`, `== 1`, `- 128` / `<= 0 ⇒ 0`, `minLen + …`, the clamp of the implicit minLen to an
+    explicit maxLen, `rotationIndex <= 15 ? index : (index − 15) * 16`, the non-unlockAll defaults
+    (false, 0, OFF, 255) — the text the model's `gen*` functions were written from -/
+theorem generator_statements :
+    Mieru.Gen.PatternGen.generatorShape = [
+      ("Config.generateTCPFragment", [
+        "if c.effective.TcpFragment == nil",
+        "  c.effective.TcpFragment = &appctlpb.TCPFragment{}",
+        "f := c.effective.TcpFragment",
+        "if c.original.TcpFragment == nil || c.original.TcpFragment.Enable == nil",
+        "  if unlockAll",
+        "    f.Enable = proto.Bool(rng.FixedInt(2, fmt.Sprintf(\"%d:tcpFragment.enable\", seed)) == 1)",
+        "  else",
+        "    f.Enable = proto.Bool(false)",
+        "if c.original.TcpFragment == nil || c.original.TcpFragment.MaxSleepMs == nil",
+        "  if unlockAll",
+        "    maxRange := 100",
+        "    f.MaxSleepMs = proto.Int32(int32(rng.FixedInt(maxRange, fmt.Sprintf(\"%d:tcpFragment.maxSleepMs\", seed))) + 1)",
+        "  else",
+        "    f.MaxSleepMs = proto.Int32(0)"]),
+      ("Config.generateNoncePattern", [
+        "if c.effective.Nonce == nil",
+        "  c.effective.Nonce = &appctlpb.NoncePattern{}",
+        "n := c.effective.Nonce",
+        "if c.original.Nonce == nil || c.original.Nonce.Type == nil",
+        "  if unlockAll",
+        "    typeRange := 3",
+        "    n.Type = appctlpb.NonceType(rng.FixedInt(typeRange, fmt.Sprintf(\"%d:nonce.type\", seed))).Enum()",
+        "  else",
+        "    typeRange := 2",
+        "    n.Type = appctlpb.NonceType(rng.FixedInt(typeRange, fmt.Sprintf(\"%d:nonce.type\", seed)) + 1).Enum()",
+        "if c.original.Nonce == nil || c.original.Nonce.ApplyToAllUDPPacket == nil",
+        "  n.ApplyToAllUDPPacket = proto.Bool(rng.FixedInt(2, fmt.Sprintf(\"%d:nonce.applyToAllUDPPacket\", seed)) == 1)",
+        "if c.original.Nonce == nil || c.original.Nonce.MinLen == nil",
+        "  if unlockAll",
+        "    minRange := 13",
+        "    n.MinLen = proto.Int32(int32(rng.FixedInt(minRange, fmt.Sprintf(\"%d:nonce.minLen\", seed))))",
+        "  else",
+        "    minRange := 7",
+        "    n.MinLen = proto.Int32(int32(rng.FixedInt(minRange, fmt.Sprintf(\"%d:nonce.minLen\", seed))) + 6)",
+        "  if c.original.Nonce != nil && c.original.Nonce.MaxLen != nil && n.GetMinLen() > n.GetMaxLen()",
+        "    n.MinLen = proto.Int32(n.GetMaxLen())",
+        "if c.original.Nonce == nil || c.original.Nonce.MaxLen == nil",
+        "  minLen := int(n.GetMinLen())",
+        "  n.MaxLen = proto.Int32(int32(minLen + rng.FixedInt(13-minLen, fmt.Sprintf(\"%d:nonce.maxLen\", seed))))"]),
+      ("Config.generatePaddingPattern", [
+        "if c.effective.Padding == nil",
+        "  c.effective.Padding = &appctlpb.PaddingPattern{}",
+        "p := c.effective.Padding",
+        "if c.original.Padding == nil || c.original.Padding.MaxMiddlePaddingLen == nil",
+        "  maxMiddlePaddingLen := rng.FixedInt(maxPaddingLen+1, fmt.Sprintf(\"%d:padding.maxMiddlePaddingLen\", seed)) - 128",
+        "  if maxMiddlePaddingLen <= 0",
+        "    maxMiddlePaddingLen = 0",
+        "  p.MaxMiddlePaddingLen = proto.Int32(int32(maxMiddlePaddingLen))",
+        "if c.original.Padding == nil || c.original.Padding.MaxEndPaddingLen == nil",
+        "  if unlockAll",
+        "    p.MaxEndPaddingLen = proto.Int32(int32(rng.FixedInt(maxPaddingLen+1, fmt.Sprintf(\"%d:padding.maxEndPaddingLen\", seed))))",
+        "  else",
+        "    p.MaxEndPaddingLen = proto.Int32(maxPaddingLen)"]),
+      ("Config.generateLowEntropyPattern", [
+        "if c.effective.LowEntropy == nil",
+        "  c.effective.LowEntropy = &appctlpb.LowEntropyPattern{}",
+        "lowEntropy := c.effective.LowEntropy",
+        "if c.original.LowEntropy == nil || c.original.LowEntropy.Mode == nil",
+        "  if unlockAll",
+        "    modeCount := len(appctlpb.LowEntropyMode_name)",
+        "    lowEntropy.Mode = appctlpb.LowEntropyMode(rng.FixedInt(modeCount, fmt.Sprintf(\"%d:lowEntropy.mode\", seed))).Enum()",
+        "  else",
+        "    lowEntropy.Mode = appctlpb.LowEntropyMode_LOW_ENTROPY_MODE_OFF.Enum()",
+        "if c.original.LowEntropy == nil || c.original.LowEntropy.MaskRotation == nil",
+        "  rotationIndex := rng.FixedInt(len(appctlpb.LowEntropyMaskRotation_name), fmt.Sprintf(\"%d:lowEntropy.maskRotation\", seed))",
+        "  var rotation appctlpb.LowEntropyMaskRotation",
+        "  if rotationIndex <= 15",
+        "    rotation = appctlpb.LowEntropyMaskRotation(rotationIndex)",
+        "  else",
+        "    rotation = appctlpb.LowEntropyMaskRotation((rotationIndex - 15) * 16)",
+        "  lowEntropy.MaskRotation = rotation.Enum()"])
+    ] := rfl
+
+/-- the byte classes of pkg/common/ascii.go: the printable bounds and the 64 bytes of `Common64Set` are the
+    model's; `ToCommon64Set` indexes the set with `b & 0x3f` -/
+theorem ascii_constants :
+    Mieru.Gen.PatternGen.common64Set = common64Set.map (·.toNat) ∧
+    Mieru.Gen.PatternGen.printableCharSub = 0x20 ∧ Mieru.Gen.PatternGen.printableCharSup = 0x7e ∧
+    Mieru.Gen.PatternGen.loopOfToCommon64Set =
+      ["for i := beginIdx; i < endIdx; i++ { setIdx := b[i] & 0x3f b[i] = Common64Set[setIdx] }"] ∧
+    Mieru.Gen.PatternGen.loopOfToPrintableChar =
+      ["for i := beginIdx; i < endIdx; i++ { if b[i] < PrintableCharSub || b[i] > PrintableCharSup { if b[i]&0x80 > 0 { lowBits := b[i] & 0x7F if lowBits >= PrintableCharSub && lowBits <= PrintableCharSup { b[i] = lowBits continue } } randCount++ } }"] ∧
+    Mieru.Gen.PatternGen.enumConsts.lookup "NonceType_NONCE_TYPE_RANDOM" = some 0 ∧
+    Mieru.Gen.PatternGen.enumConsts.lookup "NonceType_NONCE_TYPE_PRINTABLE" = some 1 ∧
+    Mieru.Gen.PatternGen.enumConsts.lookup "NonceType_NONCE_TYPE_PRINTABLE_SUBSET" = some 2 ∧
+    Mieru.Gen.PatternGen.enumConsts.lookup "NonceType_NONCE_TYPE_FIXED" = some 3 :=
+  ⟨by decide, rfl, rfl, rfl, rfl, by decide, by decide, by decide, by decide⟩
+
+end Mieru.C16
+
+/-! ## Wire clauses as theorems over the emission models (`Mieru.Model.PatternWire`) -/
+namespace Mieru.C16
+open Mieru.Pattern Mieru.Padding Mieru.PatternWire
+
+/-- **Server uses low entropy only toward a client that used it first** — temporal statement, per session.
+    In EVERY history of a server-side session that starts with the flag clear (as `Session` is created), every
+    low-entropy data segment the server emits comes from a `writeChunk` that is preceded, in that session's own
+    history, by the receipt of a `dataClientToServerLowEntropy` segment. -/
+theorem server_low_entropy_preceded_by_client (s : LESession) (hs : s.isClient = false) (h0 : s.clientUsedLE = false)
+    (evs : List LEEvent) (e : Emit) (he : e ∈ runEmits s evs) (hle : e.isLE = true) :
+    ∃ pre n post, evs = pre ++ LEEvent.sendChunk n :: post ∧ e ∈ (step (runState s pre) (.sendChunk n)).2 ∧
+      LEEvent.recv dataClientToServerLowEntropy ∈ pre := by
+  obtain ⟨pre, n, post, h1, h2⟩ := mem_runEmits s evs e he
+  refine ⟨pre, n, post, h1, h2, ?_⟩
+  have h3 := mem_step_sendChunk _ n e h2
+  rw [h3, isLE_dataProtocolOf] at hle
+  have h4 := ((server_le_only_after_client (runState s pre).pattern (runState s pre).isClient (runState s pre).clientUsedLE).1.mp hle).2
+  rw [runState_isClient, hs] at h4
+  rcases h4 with h4 | h4
+  · cases h4
+  · rcases runState_flag s pre h4 with h5 | ⟨_, h5⟩
+    · rw [h0] at h5; cases h5
+    · exact h5
+
+/-- **Clients follow their own setting from the first data segment; mode and rotation on the wire are the
+    configured ones** (either role): a data segment is low-entropy-typed iff the sender's decision said so, its
+    protocol number is the role's (6/10 client, 7/11 server), and a low-entropy segment carries exactly the
+    configured mode (≠ OFF) and rotation; a client's decision is its own configuration, in every history. -/
+theorem emitted_low_entropy_is_configured (s : LESession) (evs : List LEEvent) (e : Emit) (he : e ∈ runEmits s evs) :
+    let cfg := extractLowEntropyConfig s.pattern
+    (e.isLE = true → cfg.2.2 = true ∧ e.mode = cfg.1 ∧ e.rotation = cfg.2.1 ∧ e.mode ≠ 0) ∧
+    (e.isLE = false → e.mode = 0 ∧ e.rotation = 0) ∧
+    (s.isClient = true → e.isLE = cfg.2.2 ∧ (e.protocol = dataClientToServer ∨ e.protocol = dataClientToServerLowEntropy)) ∧
+    (s.isClient = false → (e.protocol = dataServerToClient ∨ e.protocol = dataServerToClientLowEntropy)) := by
+  obtain ⟨pre, n, post, _, h2⟩ := mem_runEmits s evs e he
+  have h3 := mem_step_sendChunk _ n e h2
+  rw [runState_isClient, runState_pattern] at h3
+  have hd := server_le_only_after_client s.pattern s.isClient (runState s pre).clientUsedLE
+  simp only at hd
+  generalize lowEntropySendConfig s.pattern s.isClient (runState s pre).clientUsedLE = r at *
+  subst h3
+  simp only [isLE_dataProtocolOf]
+  refine ⟨fun h => ⟨(hd.1.mp h).1, (hd.2.1 h).1, (hd.2.1 h).2.1, by rw [(hd.2.1 h).1]; exact (hd.2.1 h).2.2 |> fun x => by rwa [(hd.2.1 h).1] at x⟩,
+    fun h => hd.2.2 h, ?_, ?_⟩
+  · intro hc
+    refine ⟨?_, ?_⟩
+    · cases hr : r.2.2 with
+      | true => exact ((hd.1.mp hr).1).symm
+      | false =>
+        cases hcfg : (extractLowEntropyConfig s.pattern).2.2 with
+        | false => rfl
+        | true => have := hd.1.mpr ⟨hcfg, Or.inl hc⟩; rw [hr] at this; cases this
+    · rw [hc]; cases r.2.2 <;> simp [dataProtocolOf]
+  · intro hc; rw [hc]; cases r.2.2 <;> simp [dataProtocolOf]
+
+/-- **Nonce pattern on UDP: every packet iff `applyToAllUDPPacket`, else exactly the first — per cipher object.**
+    `ids` = for each datagram of a socket, in emission order, the identity of the (stateless) cipher object that
+    encrypted it.  With a pattern, packet i carries it iff applyToAll or no earlier packet used the same object;
+    with NO pattern (`noncePattern == nil`) no packet does.  Corollary: ONE object (a client's packet underlay
+    uses its single `u.block` for everything it sends) ⇒ the first datagram only, or all of them. -/
+theorem udp_nonce_pattern_emission (ty : Int) (all : Bool) (ids : List Nat) (id n : Nat) :
+    wireFlags (some (ty, all)) ids [] = (firstUse ids []).map (all || ·) ∧
+    wireFlags none ids [] = List.replicate ids.length false ∧
+    wireFlags (some (ty, all)) (List.replicate (n + 1) id) [] = true :: List.replicate n all := by
+  refine ⟨wireFlags_some .., wireFlags_none .., ?_⟩
+  rw [wireFlags_some]
+  simp only [List.replicate_succ, firstUse, List.contains_nil, Bool.not_false, List.map_cons, Bool.or_true]
+  rw [firstUse_replicate n id [id] (by simp)]
+  simp
+
+/-- **One cipher object**: `n` Encrypt calls.  Stateless (UDP): each call sends a nonce; those carrying the
+    pattern are `stepFlags` — none for a nil pattern, all for applyToAll, else exactly the first.  Implicit-nonce
+    mode (TCP): ONLY the first call puts a nonce on the wire (later calls increment the implicit nonce), and that
+    one nonce went through `newNonceTo` with the skip test off: it carries the pattern iff there is one.
+    `Clone()` (how TCP underlays obtain `send`/`recv`) does not copy `noncePatternApplied`. -/
+theorem cipher_object_nonce_emission (pat : Option (Int × Bool)) (ty : Int) (n : Nat) (c : CipherObj) :
+    (encryptN pat n { implicitMode := false }).map (·.sentNonce) = List.replicate n true ∧
+    (encryptN none n { implicitMode := false }).map (·.patterned) = List.replicate n false ∧
+    (encryptN (some (ty, true)) n { implicitMode := false }).map (·.patterned) = List.replicate n true ∧
+    (encryptN (some (ty, false)) (n + 1) { implicitMode := false }).map (·.patterned) = true :: List.replicate n false ∧
+    (encryptN pat (n + 1) { implicitMode := true }).map (·.sentNonce) = true :: List.replicate n false ∧
+    (encryptN pat (n + 1) { implicitMode := true }).map (·.patterned) = pat.isSome :: List.replicate n false ∧
+    (clone c).applied = false := by
+  have hu := fun p => encryptN_udp p n false
+  have hu1 := encryptN_udp (some (ty, false)) (n + 1) false
+  have h1 := (nonce_rewrite_once_for_udp n)
+  refine ⟨(hu pat).1, ?_, ?_, ?_, ?_, ?_, rfl⟩
+  · rw [(hu none).2, stepFlags_none]
+  · rw [(hu _).2, stepFlags_some]; exact h1.2.1
+  · rw [hu1.2, stepFlags_some]; exact h1.1
+  · rw [encryptN_tcp]; simp
+  · rw [encryptN_tcp]
+    cases pat with
+    | none => simp [EncOut.patterned, newNonceStep]
+    | some v => obtain ⟨t, a⟩ := v; simp [EncOut.patterned, newNonceStep, nonceApplies]
+
+/-- **Nonce prefix of the configured class and length**: after the type switch of `newNonceTo`, for a rewrite
+    length `n ≤ len` — PRINTABLE: the first `n` bytes are printable ASCII (0x20..0x7e) whatever the random draws,
+    bytes that were printable stay; PRINTABLE_SUBSET: the first `n` bytes are members of `Common64Set`; both: the
+    remaining bytes are untouched; FIXED: the first `min(len prefix, NonceSize)` bytes are the chosen decoded
+    prefix, the rest untouched (no prefix configured: untouched); RANDOM: untouched.  The length never changes.
+    The user hint, written afterwards, overwrites only the last 4 bytes: a prefix of ≤ len − 4 bytes survives. -/
+theorem nonce_prefix_in_class (nonce : PatternWire.Bytes) (n : Nat) (hn : n ≤ nonce.length) (draws : List Nat) (pre hint4 : PatternWire.Bytes) :
+    let p := rewriteNonce .printable nonce n draws none
+    let s := rewriteNonce .subset nonce n draws none
+    let f := rewriteNonce .fixed nonce n draws (some pre)
+    let k := min pre.length nonce.length
+    (p.length = nonce.length ∧ (∀ x ∈ p.take n, isPrintable x = true) ∧ p.drop n = nonce.drop n ∧
+      ((∀ x ∈ nonce.take n, isPrintable x = true) → p = nonce)) ∧
+    (s.length = nonce.length ∧ (∀ x ∈ s.take n, x ∈ common64Set) ∧ s.drop n = nonce.drop n) ∧
+    (f.length = nonce.length ∧ f.take k = pre.take k ∧ f.drop k = nonce.drop k) ∧
+    rewriteNonce .fixed nonce n draws none = nonce ∧ rewriteNonce .none nonce n draws (some pre) = nonce ∧
+    (n ≤ nonce.length - 4 → (withHint p hint4).take n = p.take n ∧ (withHint s hint4).take n = s.take n) := by
+  have hl1 : (toPrintable (nonce.take n) draws).length = n := by rw [toPrintable_length, List.length_take]; omega
+  have hl2 : ((nonce.take n).map toCommon64).length = n := by rw [List.length_map, List.length_take]; omega
+  have hf := applyFixed_spec nonce pre nonce.length rfl
+  intro p s f k
+  refine ⟨⟨?_, ?_, ?_, ?_⟩, ⟨?_, ?_, ?_⟩, hf, rfl, rfl, ?_⟩ <;> simp only [p, s, rewriteNonce]
+  · simp only [List.length_append, hl1, List.length_drop]; omega
+  · rw [List.take_append_of_le_length (by omega), List.take_of_length_le (by omega)]
+    exact toPrintable_all _ _
+  · rw [List.drop_append_of_le_length (by omega), List.drop_of_length_le (by omega)]; rfl
+  · intro h; rw [toPrintable_of_all_printable _ _ h]; exact List.take_append_drop _ _
+  · simp only [List.length_append, hl2, List.length_drop]; omega
+  · rw [List.take_append_of_le_length (by omega), List.take_of_length_le (by omega)]
+    intro x hx
+    obtain ⟨b, _, rfl⟩ := List.mem_map.mp hx
+    exact toCommon64_mem b
+  · rw [List.drop_append_of_le_length (by omega), List.drop_of_length_le (by omega)]; rfl
+  · intro h4
+    constructor
+    · exact withHint_take _ _ _ (by simp only [List.length_append, hl1, List.length_drop]; omega)
+    · exact withHint_take _ _ _ (by simp only [List.length_append, hl2, List.length_drop]; omega)
+
+/-- **TCP fragmentation only when enabled and content-preserving**: whatever the random draws, the
+    concatenation of the `Write` calls is the data; not enabled (nil pattern, nil `tcpFragment`, or
+    `enable = false`) ⇒ exactly ONE `Write` with the whole data; enabled ⇒ no empty `Write`, every piece at most
+    `max(⌊√len⌋+1, len/2)` bytes and — except the last — at least `⌊√len⌋+1` (so ≥ 2 writes from 4 bytes on). -/
+theorem tcp_fragment_content_preserved {α} (disabled : Bool) (data : List α) (draws : Nat → Nat) :
+    (writes disabled data draws).flatten = data ∧
+    (disabled = true → writes disabled data draws = [data]) ∧
+    (disabled = false → ∀ p ∈ writes disabled data draws, p ≠ []) ∧
+    writeSizesOK disabled data.length ((writes disabled data draws).map List.length) = true := by
+  cases disabled with
+  | true => simp [writes, writeSizesOK]
+  | false =>
+    simp only [writes, writeSizesOK, Bool.false_eq_true, ↓reduceIte, false_implies, true_implies, true_and]
+    exact ⟨pieces_flatten _ _ _ _ _ _ (Nat.le_refl _), pieces_nonempty _ _ _ _ _ _, pieces_sizesOK _ _ _ _ _ _ (Nat.le_refl _)⟩
+
+/-- the `maxEnd` twin of `padding_le_explicit` -/
+theorem padding_le_explicit_end (fi : Nat → String → Nat) (host : Int) (p : TrafficPattern) (base c : Int) (hc : 0 ≤ c)
+    (h : p.padding.bind (·.maxEnd) = some c) :
+    maxPadTP base ((effective fi host p).padding.bind (·.maxEnd)) ≤ c := by
+  have := (explicit_preserved fi host p).2.2.2.2.2.2.2.2.2.2.1 c h
+  rw [this]
+  exact (padding_le_configured base c hc).1
+
+/-- composed with the regenerated function: the budget the REAL `maxPaddingSizeWithTrafficPattern` computes from
+    the EFFECTIVE pattern (never nil, `Padding` never nil after `NewConfig`) is at most the explicitly configured
+    maximum, for the middle and for the end padding, at every MTU / transport / fragment size -/
+theorem padding_budget_le_explicit_gen (fi : Nat → String → Nat) (host : Int) (p : TrafficPattern)
+    (mtu transport frag existing c : Int) (hc : 0 ≤ c) :
+    let e := effective fi host p
+    (p.padding.bind (·.maxMiddle) = some c →
+      Mieru.Gen.PatternGen.maxPaddingSizeWithTrafficPattern mtu transport frag existing false e.padding.isNone
+        (e.padding.bind (·.maxMiddle)) (e.padding.bind (·.maxEnd)) 0 ≤ c) ∧
+    (p.padding.bind (·.maxEnd) = some c →
+      Mieru.Gen.PatternGen.maxPaddingSizeWithTrafficPattern mtu transport frag existing false e.padding.isNone
+        (e.padding.bind (·.maxMiddle)) (e.padding.bind (·.maxEnd)) 1 ≤ c) := by
+  have hnil : (effective fi host p).padding.isNone = false := rfl
+  simp only [maxPadTP_eq_gen, configuredFor, hnil, Bool.or_self, Bool.false_eq_true, ↓reduceIte]
+  exact ⟨padding_le_explicit fi host p _ c hc, by simpa using padding_le_explicit_end fi host p _ c hc⟩
+
+/-- **"… and runs without error"** (audit GAP-1): for every valid pattern, every seed / host / FixedInt, the
+    EFFECTIVE pattern meets the preconditions of every runtime consumer, for every MTU 1280..1500 and both
+    transports: `buildLowEntropyParams(mode)` succeeds when the mode is on; `maxFragmentSize` (regenerated) succeeds
+    with a positive size (so `writeChunk` neither fails nor divides by zero); the rotation passes
+    `isValidLowEntropyRotation`; the nonce rewrite length lies in 0..12 ⊆ 0..24 (no `ToPrintableChar` /
+    `ToCommon64Set` panic: `begin ≤ end ≤ len`); every custom hex string decodes to ≤ 12 bytes (the FIXED branch's
+    `panic` is unreachable and `copy` stays inside the nonce); tcpFragment.maxSleepMs ∈ 0..100. -/
+theorem effective_runs_without_error (fi : Nat → String → Nat) (hfi : FixedIntOK fi) (host : Int) (p : TrafficPattern)
+    (hv : validate p = .ok ()) (mtu : Int) (hm : 1280 ≤ mtu ∧ mtu ≤ 1500) (r : Nat) :
+    let e := effective fi host p
+    ∃ tcp non pad le mode rot minLen maxLen sleep,
+      e.tcpFragment = some tcp ∧ e.nonce = some non ∧ e.padding = some pad ∧ e.lowEntropy = some le ∧
+      le.mode = some mode ∧ le.maskRotation = some rot ∧ non.minLen = some minLen ∧ non.maxLen = some maxLen ∧
+      tcp.maxSleepMs = some sleep ∧ 0 ≤ sleep ∧ sleep ≤ 100 ∧
+      (mode ≠ 0 → (Mieru.Gen.Arith.buildLowEntropyParams_sourceBytesPerChunk mode).isSome ∧
+                   (Mieru.Gen.Arith.buildLowEntropyParams_halfMaskOnes mode).isSome) ∧
+      (∃ f, Mieru.Gen.Arith.maxFragmentSize mtu Mieru.Gen.streamTransport mode = some f ∧ 0 < f) ∧
+      (∃ f, Mieru.Gen.Arith.maxFragmentSize mtu Mieru.Gen.packetTransport mode = some f ∧ 0 < f) ∧
+      Mieru.Gen.Arith.isValidLowEntropyRotation rot = true ∧
+      0 ≤ Mieru.Gen.PatternGen.nonceRewriteLen minLen maxLen 24 r ∧
+      Mieru.Gen.PatternGen.nonceRewriteLen minLen maxLen 24 r ≤ 12 ∧
+      (∀ s ∈ non.customHex, validHex s = true ∧ s.length / 2 ≤ 12) := by
+  have hval := effective_valid fi hfi host p ((validate_iff p).mp hv)
+  obtain ⟨h1, h2, h3, h4⟩ := hval
+  simp only [effective] at h1 h2 h3 h4 ⊢
+  -- every leaf is set
+  have hs := effective_all_set fi host p
+  simp only [effective, Option.bind_some] at hs
+  obtain ⟨_, hs2, _, _, hs5, hs6, _, _, hs9, hs10⟩ := hs
+  obtain ⟨sleep, hsleep⟩ := Option.isSome_iff_exists.mp hs2
+  obtain ⟨minLen, hmin⟩ := Option.isSome_iff_exists.mp hs5
+  obtain ⟨maxLen, hmax⟩ := Option.isSome_iff_exists.mp hs6
+  obtain ⟨mode, hmode⟩ := Option.isSome_iff_exists.mp hs9
+  obtain ⟨rot, hrot⟩ := Option.isSome_iff_exists.mp hs10
+  have ht := h1 _ rfl sleep hsleep
+  have hn := h2 _ rfl
+  have hl := h4 _ rfl
+  have hmv : validMode mode := hl.1 mode hmode
+  have hrv : validRotation rot := hl.2 rot hrot
+  have hmn := hn.1 minLen hmin
+  have hmx := hn.2.1 maxLen hmax
+  have hle := hn.2.2.1 minLen maxLen hmin hmax
+  refine ⟨_, _, _, _, mode, rot, minLen, maxLen, sleep, rfl, rfl, rfl, rfl, hmode, hrot, hmin, hmax, hsleep, ht.1, ht.2, ?_, ?_, ?_, ?_, ?_, ?_, hn.2.2.2⟩
+  · intro h0
+    unfold validMode at hmv
+    have : mode = 1 ∨ mode = 2 ∨ mode = 3 ∨ mode = 4 := by omega
+    rcases this with rfl | rfl | rfl | rfl <;> decide
+  · unfold validMode at hmv
+    have : mode = 0 ∨ mode = 1 ∨ mode = 2 ∨ mode = 3 ∨ mode = 4 := by omega
+    have hI : Mieru.Gen.Arith.maxFragmentSizeInternal mtu Mieru.Gen.streamTransport = 32768 := rfl
+    rcases this with rfl | rfl | rfl | rfl | rfl <;> exact ⟨_, rfl, by rw [hI]; decide⟩
+  · unfold validMode at hmv
+    have h88 : (0:Int) ≤ mtu - 88 := by omega
+    have : mode = 0 ∨ mode = 1 ∨ mode = 2 ∨ mode = 3 ∨ mode = 4 := by omega
+    rcases this with rfl | rfl | rfl | rfl | rfl
+    · exact ⟨mtu - 88, by simp [Mieru.Gen.Arith.maxFragmentSize, Mieru.Gen.Arith.maxFragmentSizeInternal, Mieru.Gen.packetTransport, Mieru.Gen.streamTransport, Mieru.Gen.packetOverhead]; omega, by omega⟩
+    all_goals
+      simp [Mieru.Gen.Arith.maxFragmentSize, Mieru.Gen.Arith.buildLowEntropyParams_sourceBytesPerChunk,
+        Mieru.Gen.Arith.buildLowEntropyParams_halfMaskOnes, Mieru.Gen.packetTransport, Mieru.Gen.streamTransport,
+        Mieru.Gen.packetOverhead, Mieru.Gen.lowEntropyChunkLen, Int.tdiv_eq_ediv_of_nonneg h88]
+      exact ⟨_, ⟨by omega, rfl⟩, by omega⟩
+  · have h0 : 0 ≤ rot := by unfold validRotation at hrv; omega
+    unfold validRotation at hrv
+    unfold Mieru.Gen.Arith.isValidLowEntropyRotation
+    rw [Int.tmod_eq_emod_of_nonneg h0]
+    simp only [decide_eq_true_eq]
+    omega
+  · have := nonce_rewrite_len_in_clamped_range minLen maxLen 24 r
+    simp only [nonceRewriteRange] at this
+    obtain ⟨_, _, h5, _, _⟩ := this
+    have : (if minLen > (if maxLen > 24 then 24 else maxLen) then (if maxLen > 24 then 24 else maxLen) else minLen) = minLen := by
+      rw [if_neg (by omega : ¬ maxLen > 24), if_neg (by omega)]
+    omega
+  · have := nonce_rewrite_len_in_clamped_range minLen maxLen 24 r
+    simp only [nonceRewriteRange] at this
+    obtain ⟨_, _, _, h6, _⟩ := this
+    have : (if maxLen > 24 then (24 : Int) else maxLen) = maxLen := by rw [if_neg (by omega)]
+    omega
+
+end Mieru.C16
+
+/-! ## Non-vacuity of the round-3 families -/
+namespace Mieru.C16
+open Mieru.Pattern Mieru.Padding Mieru.PatternWire
+
+/-- the server of a session whose pattern is mode 3 / rotation 32 -/
+def srv : LESession := { isClient := false, pattern := some { lowEntropy := some { mode := some 3, maskRotation := some 32 } } }
+
+-- before the client used low entropy the server emits plain type 7; after a received type 10, type 11 with the configured mode / rotation
+example : runEmits srv [.recv 6, .sendChunk 1, .recv 10, .sendChunk 2] = [⟨7, 0, 0⟩, ⟨11, 3, 32⟩, ⟨11, 3, 32⟩] := by decide
+-- a low-entropy ack-less client: type 10 from its first data segment
+example : runEmits { srv with isClient := true } [.sendChunk 1] = [⟨10, 3, 32⟩] := by decide
+-- a type-10 segment received by a CLIENT session (wrong direction) does not set the flag
+example : (runState { srv with isClient := true } [.recv 10]).clientUsedLE = false := by decide
+example : wireFlags (some (1, false)) [7, 7, 9, 7, 9] [] = [true, false, true, false, false] := by decide
+example : wireFlags (some (1, true)) [7, 7, 9] [] = [true, true, true] := by decide
+example : wireFlags none [7, 7, 9] [] = [false, false, false] := by decide
+example : (encryptN (some (2, false)) 3 { implicitMode := true }).map (·.sentNonce) = [true, false, false] := by decide
+example : rewriteNonce .subset [0x00, 0xff, 0x41, 0x80] 2 [] none = [65, 106, 0x41, 0x80] := by decide
+example : rewriteNonce .printable [0x00, 0xc1, 0x41, 0x80] 3 [5] none = [0x25, 0x41, 0x41, 0x80] := by decide
+example : rewriteNonce .fixed [1, 2, 3, 4] 0 [] (some [9, 8]) = [9, 8, 3, 4] := by decide
+-- 10 bytes, ⌊√10⌋ = 3: pieces of 4..5 bytes, the last one what remains
+example : pieces 10 3 (fun k => k) 10 0 [1, 2, 3, 4, 5, 6, 7, 8, 9, 10] = [[1, 2, 3, 4], [5, 6, 7, 8, 9], [10]] := by decide
+example : writes true [1, 2, 3] (fun k => k) = [[1, 2, 3]] := by decide
+example : maxPadTP 200 (some 0) = 0 ∧ maxPadTP 200 (some 7) = 7 ∧ maxPadTP 5 (some 7) = 5 ∧ maxPadTP 200 none = 200 ∧ maxPadTP 200 (some (-1)) = 0 := by decide
+example : Mieru.Gen.PatternGen.nonceRewriteLen 30 40 24 5 = 24 ∧ Mieru.Gen.PatternGen.nonceRewriteLen 9 3 24 5 = 3 ∧
+    Mieru.Gen.PatternGen.nonceRewriteLen 6 9 24 7 = 9 := by decide
+example : Mieru.Gen.PatternGen.maxPaddingSizeWithTrafficPattern 1400 2 100 0 false false (some 0) none 0 = 0 := by decide
+example : validate witness = .ok () ∧ FixedIntOK Mieru.FixedInt.fixedIntSha := ⟨rfl, fixedIntSha_ok⟩
 
 end Mieru.C16
